@@ -524,6 +524,12 @@ func requestFrame(s mstep) []byte {
 		}
 	case "missing":
 		params = ""
+	case "wrongTypeLong":
+		long := `"textDocument":{"uri":` + q("file:///"+strings.Repeat("very/long/path/", 24)+"q.sql") + `}`
+		params = `,"params":{` + long + `,"position":{"line":1.5,"character":"x"},"options":{"tabSize":"two","insertSpaces":7},"range":"all","context":[]}`
+		if s.ID%2 == 0 {
+			params = `,"params":{` + long + `,"position":"` + strings.Repeat("nowhere ", 40) + `","processId":"one","capabilities":[]}`
+		}
 	default:
 		td := `"textDocument":{"uri":` + q(s.URI) + `}`
 		switch s.M {
@@ -603,6 +609,8 @@ func inertFrame(s mstep) []byte {
 	switch s.Params {
 	case "wrongShape":
 		params = `,"params":{"textDocument":"not-an-object","contentChanges":{"a":1}}`
+	case "wrongTypeLong":
+		params = `,"params":{"textDocument":{"uri":` + q("file:///"+strings.Repeat("very/long/path/", 24)+"q.sql") + `,"version":"one","text":7},"contentChanges":"none"}`
 	case "ok":
 		params = `,"params":{}`
 	}
